@@ -44,7 +44,7 @@ def determinism(check):
     seed = 424242
     n = int(os.environ.get("SELFTEST_RUNS", "24000"))
     bad = 0
-    for prof in ["C01", "C02", "C03", "C08", "C09", "C10", "C07"]:
+    for prof in ["C01", "C02", "C03", "C08", "C09", "C10", "C07", "C15", "C17"]:
         logs = []
         for part, nw in (("a", 16), ("b", 5), ("c", 16)):
             per = (n + nw - 1) // nw
